@@ -70,11 +70,17 @@ TIE_OF = {'C02': ['C01'], 'C03': ['C09'], 'C04': ['C01'], 'C07': ['C05'], 'C11':
           'C14': ['C05'], 'C16': ['C05', 'C06'], 'C17': ['C17', 'C05', 'C09', 'C10'], 'C15': ['C01']}
 
 
+EXTRA_PROPS = {'C03': ['Pearl.Props.C03b']}
+
+
 def prop_modules(prop):
     """Lean modules holding the obligations of a property: its theorem file and the translator-tie files"""
     mods = []
     if os.path.exists(os.path.join(LEAN, 'Pearl', 'Props', f'{prop}.lean')):
         mods.append(f'Pearl.Props.{prop}')
+    for extra in EXTRA_PROPS.get(prop, []):
+        if os.path.exists(os.path.join(LEAN, *extra.split('.')) + '.lean'):
+            mods.append(extra)
     for t in TIE_OF.get(prop, [prop]):
         if os.path.exists(os.path.join(LEAN, 'Pearl', 'Tie', f'{t}.lean')):
             mods.append(f'Pearl.Tie.{t}')
@@ -238,6 +244,24 @@ def script_lines(lines):
     return [l.strip() for l in lines if l.strip() and not l.strip().startswith('#')]
 
 
+_BLOOM_BITS = {}
+
+
+def bloom_bits(cfg):
+    """bit count of a bloom configuration `elements,hashers,max_bits`: an f64 formula in the implementation, obtained
+    from it once per configuration and handed to the model as an input"""
+    if cfg not in _BLOOM_BITS:
+        e, k, m = cfg.split(',')
+        try:
+            pr = subprocess.run([HARNESS_BIN, 'run', '-'], input=f'bloom new {e} {k} {m}\n'.encode(), stdout=subprocess.PIPE,
+                                stderr=subprocess.DEVNULL, timeout=60)
+            out = pr.stdout.decode().strip()
+            _BLOOM_BITS[cfg] = int(out.split('bits=')[1]) if 'bits=' in out else 0
+        except Exception:
+            _BLOOM_BITS[cfg] = 0
+    return _BLOOM_BITS[cfg]
+
+
 def run_chunk(idx, scens, timeout):
     """run a list of scenarios through harness, model and oracle; returns per-scenario dicts"""
     d = scratch_dir()
@@ -265,6 +289,10 @@ def run_chunk(idx, scens, timeout):
     # nondeterministic background events observed by the implementation are handed to the model as
     # annotations; the model checks that they were enabled
     def annotate(l, o):
+        if l.startswith('cfg ') and 'bloom=' in l:
+            b = [t for t in l.split() if t.startswith('bloom=')][0][6:]
+            if b not in ('off', '0') and b.count(',') == 2:
+                return l + f' @bits={bloom_bits(b)}'
         if o.endswith(' switched'):
             return l + ' @switched'
         if l.startswith(('bloom new', 'bloom2 new')) and o.startswith('ok bits='):
